@@ -463,6 +463,11 @@ class CallMixin:
         out = {}
         for n, kind in c.params.items():
             v = bound[n]
+            if v is VNone and not isinstance(kind, (KOpt, KNone)) and not (isinstance(kind, KPrim) and kind.name.startswith("Any")):
+                # a definite None passed for a parameter that is not Optional: the same precondition obligation, which
+                # fails on every path that gets here
+                st = self.oblige(st, FALSE, "pre", f"{c.qualname}:arg-{n}-not-None", meta={"where": where})
+                v = self.fresh_value(st, kind, "none_arg_" + n)
             if isinstance(v, VOpt) and not isinstance(kind, KOpt):
                 # demand non-None as a precondition obligation
                 st = self.oblige(st, Not(v.isnone), "pre", f"{c.qualname}:arg-{n}-not-None", meta={"where": where})
